@@ -387,6 +387,20 @@ def generic_pool(tier):
     return out
 
 
+def zero_power_pool(tier):
+    """Powers whose base is zero-valued (the constant 0, a product with a zero factor) with exponent 0, 1, 2 -- 0**0 is 1 -- as terms of sums and factors of products:
+    the truth value of such a node decides whether flattened_sum / flattened_product drop it."""
+    import pymbolic.primitives as p
+    x, y = p.Variable("x"), p.Variable("y")
+    out = []
+    for zb in (0, p.Product((0, y)), p.Product((y, 0, x)), p.Sum((0,))):
+        for k in (0, 1, 2):
+            pw = p.Power(zb, k)
+            out += [pw, p.Sum((x, pw)), p.Sum((pw, x)), p.Product((y, pw)), p.Product((pw, y)), p.Sum((x, 2, pw)), p.Product((p.Sum((y, 1)), pw)), p.Sum((p.Product((2, pw)), x)),
+                    p.Power(p.Sum((x, pw)), 2), p.Product((p.Sum((x, pw)), p.Sum((y, pw))))]
+    return out
+
+
 def collapse_pool(tier):
     """Children that become a sum (product) only by being folded: a product (sum) with neutral constants around a sum (product), built
     with the constructors (the operators drop the neutral elements), at one and two levels, inside sums and products with constants."""
@@ -495,7 +509,7 @@ def b_flatten(tier):
                    "around nested sums/products): same exact rational function and same exact value in 3 rational environments; result has no sum directly under a sum, no "
                    "product under a product, no 0 in a sum, no 1 in a product; does not raise", bound="depth <= 3, ~2500 expressions (thorough) / ~900 (quick)",
                    functions=["flatten", "FlattenMapper.map_sum", "FlattenMapper.map_product", "flattened_sum", "flattened_product"])
-    for e in poly_pool(tier) + rational_pool(tier) + generic_pool(tier):
+    for e in poly_pool(tier) + rational_pool(tier) + generic_pool(tier) + zero_power_pool(tier):
         r = outcome.run(lambda: flatten(e))
         b.case(("flatten", repr(e)), sample=dict(expr=repr(e)))
         if check_value(b, "flatten", e, r, ["flatten"]):
@@ -521,7 +535,7 @@ def b_fold(tier):
     b = BoundedRun("constant-folding", rule="ConstantFoldingMapper()(e) and CommutativeConstantFoldingMapper()(e) on the same pools: same exact rational function, same exact "
                    "value in 3 environments (an exact rational never becomes a float), at most one constant operand left in every folded sum (and product for the commutative "
                    "variant), does not raise", bound="as flatten", functions=["ConstantFoldingMapperBase.fold", "ConstantFoldingMapper", "CommutativeConstantFoldingMapper"])
-    for e in poly_pool(tier) + rational_pool(tier) + generic_pool(tier) + collapse_pool(tier):
+    for e in poly_pool(tier) + rational_pool(tier) + generic_pool(tier) + collapse_pool(tier) + zero_power_pool(tier):
         for comm, M in ((False, ConstantFoldingMapper), (True, CommutativeConstantFoldingMapper)):
             r = outcome.run(lambda: M()(e))
             b.case((M.__name__, repr(e)), sample=dict(mapper=M.__name__, expr=repr(e)))
@@ -564,7 +578,7 @@ def b_expand(tier):
                    "polynomial inputs (sums, products, non-negative integer powers of variables and constants): no sum beneath a product or integer power, pairwise distinct "
                    "monomials (=> polynomials equal as functions expand to equal term multisets); also commutative=False", bound="as flatten (polynomial + rational pools)",
                    functions=["DistributeMapper.map_sum/map_product/map_power/map_quotient", "distribute", "TermCollector", "CommutativeConstantFoldingMapper"])
-    for e in poly_pool(tier) + rational_pool(tier):
+    for e in poly_pool(tier) + rational_pool(tier) + zero_power_pool(tier):
         r = outcome.run(lambda: distribute(e))
         b.case(("expand", repr(e)), sample=dict(expr=repr(e)))
         cause = _expand_cause(e)
